@@ -45,4 +45,4 @@ META = dict(
     technique="runtime monitoring: event-log checker (exactly-once, thread, not-early, not-after-release) + TSan/ASan/LSan under schedule perturbation",
 )
 
-CFG["rule"] += (" " + 'Additions: scenarios without far-future tasks release the scheduler 0-120 us after the last task function returned; one scenario in three ends with a parent cancelled from main whose CANCELED callback cancels a child and schedules a follow-up; stages tsanrel (-O2 under TSan) and rel (-O2, uninstrumented, no shortening of timed waits).')
+CFG["rule"] += (" " + 'Additions: scenarios without far-future tasks release the scheduler 0-120 us after the last task function returned; one scenario in three ends with a parent cancelled from main whose CANCELED callback cancels a child and schedules a follow-up; stages tsanrel (-O2 under TSan) and rel (-O2, uninstrumented, no shortening of timed waits). Half of the schedule-now calls are made on a task object whose timestamp field still holds a far-future time from an earlier use.')
